@@ -3,7 +3,8 @@
    subscriptions" semantics the slices are meant to implement.
    Executable definitions only; proofs are in Proofs/Notifier.v.
 
-   Line numbers refer to /repo/notifier.go.
+   Line numbers refer to /repo/notifier.go at HEAD (after b6b3651, which added the untyped-nil branch l.158-169 to the
+   construction loop; the select loop is l.177-224).
 
    What one Publish sees.  PublishContext holds n.mutex.RLock for its whole duration, so the set of subscriptions
    under the key is fixed during the call; it is handed to the model as [subs], in the (arbitrary) order in which
@@ -19,7 +20,8 @@ Record sub := {
   sid        : nat;    (* identity of the target channel (valuePtr) *)
   has_ctx    : bool;   (* keySubscriber.ctx != nil *)
   cancelled0 : bool;   (* keySubscriber.ctx.Err() != nil when the scan at l.155 looks at it *)
-  compat     : bool    (* valueRef.Type().AssignableTo(target.Type().Elem()), l.158 *)
+  compat     : bool    (* l.158-169: valueRef.Type().AssignableTo(target.Type().Elem()) (l.167); for an untyped nil
+                          value (l.159-166): the element type's kind can hold nil, and its zero value is sent *)
 }.
 
 Record cstate := {
@@ -30,15 +32,15 @@ Record cstate := {
 
 Definition mk (s f r : list nat) : cstate := {| succ := s; fail := f; refs := r |}.
 
-(* l.154-166: one pass of the construction loop. *)
+(* l.154-175: one pass of the construction loop. *)
 Definition build_step (c : cstate) (s : sub) : cstate :=
   if has_ctx s && cancelled0 s then c                       (* l.155-157 continue *)
-  else if negb (compat s) then c                            (* l.158-160 continue *)
+  else if negb (compat s) then c                            (* l.158-169 continue (l.165 / l.168) *)
   else if has_ctx s then
-    mk (succ c ++ [sid s])                                  (* l.165 *)
-       (fail c ++ [sid s])                                  (* l.162 *)
-       (refs c ++ [length (succ c)])                        (* l.163: len(successCases) BEFORE the append of l.165 *)
-  else mk (succ c ++ [sid s]) (fail c) (refs c).            (* l.165 only *)
+    mk (succ c ++ [sid s])                                  (* l.174 *)
+       (fail c ++ [sid s])                                  (* l.171 *)
+       (refs c ++ [length (succ c)])                        (* l.172: len(successCases) BEFORE the append of l.174 *)
+  else mk (succ c ++ [sid s]) (fail c) (refs c).            (* l.174 only *)
 
 Definition build (subs : list sub) : cstate := fold_left build_step subs (mk [] [] []).
 
@@ -46,14 +48,14 @@ Definition build (subs : list sub) : cstate := fold_left build_step subs (mk [] 
 (* Slice primitives                                                                                              *)
 (* ------------------------------------------------------------------------------------------------------------ *)
 
-(* copy(s[n:], s[n+1:]); s = s[:len(s)-1]  (l.200-202, l.208-211, l.213-214); callers check n < len s. *)
+(* copy(s[n:], s[n+1:]); s = s[:len(s)-1]  (l.209-211, l.217-220, l.222-223); callers check n < len s. *)
 Fixpoint remove_nth {A : Type} (n : nat) (l : list A) {struct l} : list A :=
   match l with
   | [] => []
   | x :: l' => match n with 0 => l' | S n' => x :: remove_nth n' l' end
   end.
 
-(* l.185-190: index of the first element equal to x (the search for the failure case guarding successIndex);
+(* l.193-199: index of the first element equal to x (the search for the failure case guarding successIndex);
    also used by the driver to find the position of a sid. *)
 Fixpoint index_of (x : nat) (l : list nat) : option nat :=
   match l with
@@ -66,14 +68,14 @@ Fixpoint index_of (x : nat) (l : list nat) : option nat :=
 (* ------------------------------------------------------------------------------------------------------------ *)
 
 Record flags := {
-  rebase_lt          : bool;  (* l.194 tests  failureRefs[i] <  successIndex  instead of <= *)
-  no_ref_removal     : bool;  (* l.213-214 omitted: the failure case is removed but not its ref *)
-  rebase_before_test : bool   (* l.194-197 reordered: failureRefs[i]-- first, then the <= test and break *)
+  rebase_lt          : bool;  (* l.203 tests  failureRefs[i] <  successIndex  instead of <= *)
+  no_ref_removal     : bool;  (* l.222-223 omitted: the failure case is removed but not its ref *)
+  rebase_before_test : bool   (* l.203-206 reordered: failureRefs[i]-- first, then the <= test and break *)
 }.
 
 Definition good : flags := {| rebase_lt := false; no_ref_removal := false; rebase_before_test := false |}.
 
-(* l.193-198, the re-basing loop
+(* l.202-207, the re-basing loop
        for i := len(failureRefs) - 1; i >= 0; i-- { if failureRefs[i] <= successIndex { break }; failureRefs[i]-- }
    It walks the slice from its LAST element down, so it is transcribed as a recursion over the reversed slice;
    the early `break` returns the remaining (lower-index) elements untouched. *)
@@ -84,14 +86,14 @@ Fixpoint rebase_rev (fl : flags) (j : nat) (r : list nat) : list nat :=
       if rebase_before_test fl then
         let x' := x - 1 in                                            (* mutant: decrement ... *)
         if x' <=? j then x' :: r' else x' :: rebase_rev fl j r'       (* ... then test / break *)
-      else if (if rebase_lt fl then x <? j else x <=? j) then r      (* l.194-196: break *)
-      else (x - 1) :: rebase_rev fl j r'                              (* l.197 *)
+      else if (if rebase_lt fl then x <? j else x <=? j) then r      (* l.203-205: break *)
+      else (x - 1) :: rebase_rev fl j r'                              (* l.206 *)
   end.
 
 Definition rebase (fl : flags) (j : nat) (r : list nat) : list nat := rev (rebase_rev fl j (rev r)).
 
 (* ------------------------------------------------------------------------------------------------------------ *)
-(* One iteration of `for len(successCases) != 0` (l.168-215), given what reflect.Select chose                     *)
+(* One iteration of `for len(successCases) != 0` (l.177-224), given what reflect.Select chose                     *)
 (* ------------------------------------------------------------------------------------------------------------ *)
 
 Inductive fired :=
@@ -100,22 +102,22 @@ Inductive fired :=
 | FSucc (i : nat).    (* index into successCases: that send went through *)
 
 Inductive ires :=
-| IReturn                                      (* l.177: PublishContext returns *)
+| IReturn                                      (* l.186: PublishContext returns *)
 | IBad                                         (* index out of range: reflect.Select cannot produce it; Go would panic *)
 | ICont (c : cstate) (delivered : option nat). (* next iteration; the sid that received the value, if any *)
 
-(* l.193-214 with successIndex = j and failureIndex = fi (None is the code's -1). *)
+(* l.202-223 with successIndex = j and failureIndex = fi (None is the code's -1). *)
 Definition finish (fl : flags) (c : cstate) (j : nat) (fi : option nat) (d : option nat) : ires :=
   if j <? length (succ c) then
-    let refs1 := rebase fl j (refs c) in                              (* l.193-198 *)
-    let succ1 := remove_nth j (succ c) in                             (* l.200-202 *)
+    let refs1 := rebase fl j (refs c) in                              (* l.202-207 *)
+    let succ1 := remove_nth j (succ c) in                             (* l.209-211 *)
     match fi with
-    | None => ICont (mk succ1 (fail c) refs1) d                       (* l.204-206 continue *)
+    | None => ICont (mk succ1 (fail c) refs1) d                       (* l.213-215 continue *)
     | Some i =>
         if (i <? length (fail c)) && (i <? length refs1) then
           ICont (mk succ1
-                    (remove_nth i (fail c))                           (* l.208-211 *)
-                    (if no_ref_removal fl then refs1 else remove_nth i refs1))   (* l.213-214 *)
+                    (remove_nth i (fail c))                           (* l.217-220 *)
+                    (if no_ref_removal fl then refs1 else remove_nth i refs1))   (* l.222-223 *)
                 d
         else IBad
     end
@@ -123,15 +125,15 @@ Definition finish (fl : flags) (c : cstate) (j : nat) (fi : option nat) (d : opt
 
 Definition iter_gen (fl : flags) (c : cstate) (f : fired) : ires :=
   match f with
-  | FExit => IReturn                                                  (* l.176-177 *)
-  | FFail i =>                                                        (* l.179-181 *)
+  | FExit => IReturn                                                  (* l.185-186 *)
+  | FFail i =>                                                        (* l.188-190 *)
       if i <? length (fail c) then
         match nth_error (refs c) i with
         | Some j => finish fl c j (Some i) None                       (* successIndex = failureRefs[failureIndex] *)
         | None => IBad
         end
       else IBad
-  | FSucc j =>                                                        (* l.183-191 *)
+  | FSucc j =>                                                        (* l.192-200 *)
       match nth_error (succ c) j with
       | Some s => finish fl c j (index_of j (refs c)) (Some s)        (* failureIndex = first i with refs[i] = j, or -1 *)
       | None => IBad
@@ -140,9 +142,9 @@ Definition iter_gen (fl : flags) (c : cstate) (f : fired) : ires :=
 
 Definition iter : cstate -> fired -> ires := iter_gen good.
 
-(* l.170-173: the single index returned by reflect.Select over exitCases ++ failureCases ++ successCases, and the
+(* l.179-181: the single index returned by reflect.Select over exitCases ++ failureCases ++ successCases, and the
    code's decoding of it (failureIndex = exitIndex - len(exitCases); successIndex = failureIndex - len(failureCases);
-   the `switch` tests them in this order, so the subtractions are only used when they are non-negative). *)
+   the `switch` of l.184-200 tests them in this order, so the subtractions are only used when they are non-negative). *)
 Definition decode (nexit : nat) (c : cstate) (exitIndex : nat) : option fired :=
   if exitIndex <? nexit then Some FExit
   else let failureIndex := exitIndex - nexit in
@@ -188,7 +190,7 @@ Definition ocons (d : option nat) (l : list nat) : list nat :=
    run with returned = false. *)
 Fixpoint run_loop (fl : flags) (pub_ctx : bool) (c : cstate) (evs : list ev) : list nat * bool :=
   match succ c with
-  | [] => ([], true)                                                  (* l.168: len(successCases) == 0 *)
+  | [] => ([], true)                                                  (* l.177: len(successCases) == 0 *)
   | _ :: _ =>
       match evs with
       | [] => ([], false)                                             (* still blocked in reflect.Select *)
